@@ -158,7 +158,9 @@ func (p *prop) runModule(c core.Case, w *core.Worker, res *core.Result, r *rand.
 		// the same named struct type as a field of a holder in ITS OWN package and of a holder in an importing package
 		// (deepcopy is enabled in p1, p3, p4): what a generator learns about the type while generating one package
 		// (local or foreign?) must not carry over to the other
-		fsrc += "type Meta struct {\n\tLabels map[string]string\n\tN      int\n}\n\ntype MetaHolder struct {\n\tM Meta\n\tL []string\n}\n\n"
+		// (doc lines whose first word starts with the declared name again - removing the leading name twice eats into
+		// the text: "Meta Metadata ..." -> "Metadata ..." -> "data ...")
+		fsrc += "// Meta Metadata of things.\ntype Meta struct {\n\t// Labels Labelset attached.\n\tLabels map[string]string\n\t// N Number of them.\n\tN int\n}\n\n// MetaHolder MetaHolderish.\ntype MetaHolder struct {\n\t// M MM.\n\tM Meta\n\tL []string\n}\n\n"
 		if dep := map[string]string{"p2": "p3", "p4": "p1"}[d]; dep != "" {
 			fsrc += "type ForeignHolder struct {\n\tM    store.Meta\n\tName string\n}\n\n"
 		}
